@@ -598,4 +598,328 @@ theorem blocks_more_unfold (ts : List Tok) :
     simp only
     rw [blocks_more_fuel ts.length (rest.length + 1) rest (by omega) (by omega)]
 
+/-! ### the metadata-only scanner against the full splitter (C14) -/
+
+/-- tokens of the first line, newline excluded -/
+def lineBody (ts : List Tok) : List Tok := ts.takeWhile (fun t => t.kind != .newline)
+
+/-- a block "is a `>>` block" when its first token is `>>` -/
+def isMetaBlock (b : List Tok) : Bool :=
+  match b.head? with
+  | some t => t.kind == .metaStart
+  | none => false
+
+theorem blocks_meta_succ (f : Nat) (last : TK) (ts : List Tok) :
+    metaBlocks (f + 1) last ts = match seekMeta last ts with
+      | none => []
+      | some ts' => lineBody ts' :: metaBlocks f .newline (afterLine ts') := rfl
+
+theorem blocks_seek_some (last : TK) (ts ts' : List Tok) (h : seekMeta last ts = some ts') :
+    ∃ t r, ts' = t :: r ∧ t.kind = .metaStart ∧ ts'.length ≤ ts.length := by
+  induction ts generalizing last with
+  | nil => simp [seekMeta] at h
+  | cons t rest ih =>
+    unfold seekMeta at h
+    split at h
+    · rename_i hc
+      simp only [Option.some.injEq] at h
+      simp only [Bool.and_eq_true, beq_iff_eq] at hc
+      exact ⟨t, rest, h.symm, hc.2, by rw [← h]; exact Nat.le_refl _⟩
+    · obtain ⟨t', r', e1, e2, e3⟩ := ih _ h
+      exact ⟨t', r', e1, e2, by simp only [List.length_cons]; omega⟩
+
+theorem blocks_seek_cons (last : TK) (t : Tok) (rest : List Tok) :
+    seekMeta last (t :: rest) =
+      if last == .newline && t.kind == .metaStart then some (t :: rest) else seekMeta t.kind rest := by
+  rw [seekMeta]
+
+theorem blocks_seek_blank (last : TK) (ts : List Tok) (h : AllBlank ts) : seekMeta last ts = none := by
+  induction ts generalizing last with
+  | nil => rfl
+  | cons t rest ih =>
+    have ht := h t (List.mem_cons_self ..)
+    have hk : t.kind ≠ .metaStart := by
+      intro hk; rw [hk] at ht; simp [isEmptyTok] at ht
+    have hc : (last == TK.newline && t.kind == TK.metaStart) = false := by simp [hk]
+    rw [blocks_seek_cons, hc]
+    simp only [Bool.false_eq_true, if_false]
+    exact ih _ (fun u hu => h u (List.mem_cons_of_mem _ hu))
+
+/-- the seeker runs through a line that does not start with a `>>` at a line start -/
+theorem blocks_seek_line (last : TK) (ts : List Tok)
+    (h : last ≠ .newline ∨ ∀ t, ts.head? = some t → t.kind ≠ .metaStart) :
+    seekMeta last ts = seekMeta .newline (afterLine ts) := by
+  induction ts generalizing last with
+  | nil => rfl
+  | cons t r ih =>
+    have hc : (last == TK.newline && t.kind == TK.metaStart) = false := by
+      rcases h with h | h
+      · simp [h]
+      · simp [h t rfl]
+    rw [blocks_seek_cons, hc]
+    simp only [Bool.false_eq_true, if_false]
+    by_cases hk : t.kind = .newline
+    · have : afterLine (t :: r) = r := by simp [afterLine, hk]
+      rw [this, hk]
+    · have : afterLine (t :: r) = afterLine r := by simp [afterLine, hk]
+      rw [this]
+      exact ih _ (Or.inl hk)
+
+theorem blocks_seek_meta_head (t : Tok) (r : List Tok) (h : t.kind = .metaStart) :
+    seekMeta .newline (t :: r) = some (t :: r) := by
+  simp [seekMeta, h]
+
+theorem blocks_meta_fuel : ∀ (f1 f2 : Nat) (last : TK) (ts : List Tok), ts.length ≤ f1 → ts.length ≤ f2 →
+    metaBlocks f1 last ts = metaBlocks f2 last ts := by
+  intro f1
+  induction f1 with
+  | zero =>
+    intro f2 last ts h1 h2
+    have : ts = [] := List.eq_nil_of_length_eq_zero (by omega)
+    subst this
+    cases f2 <;> simp [metaBlocks, seekMeta]
+  | succ n ih =>
+    intro f2 last ts h1 h2
+    cases f2 with
+    | zero =>
+      have : ts = [] := List.eq_nil_of_length_eq_zero (by omega)
+      subst this
+      simp [metaBlocks, seekMeta]
+    | succ m =>
+      rw [blocks_meta_succ, blocks_meta_succ]
+      cases hs : seekMeta last ts with
+      | none => rfl
+      | some ts' =>
+        obtain ⟨t, r, e, _, hl⟩ := blocks_seek_some last ts ts' hs
+        have := blocks_afterLine_length t r
+        rw [← e] at this
+        simp only
+        rw [ih m .newline (afterLine ts') (by omega) (by omega)]
+
+/-- the blocks of the metadata-only scanner, with the fuel `pullMetaEvents` uses -/
+def metaBlocksOf (ts : List Tok) : List (List Tok) := metaBlocks (ts.length + 1) .newline ts
+
+theorem blocks_MB_of_seek_eq (ts1 ts2 : List Tok) (h : seekMeta .newline ts1 = seekMeta .newline ts2) :
+    metaBlocksOf ts1 = metaBlocksOf ts2 := by
+  unfold metaBlocksOf
+  rw [blocks_meta_succ, blocks_meta_succ, h]
+  cases hs : seekMeta .newline ts2 with
+  | none => rfl
+  | some ts' =>
+    obtain ⟨t, r, e, _, hl2⟩ := blocks_seek_some _ ts2 ts' hs
+    obtain ⟨_, _, _, _, hl1⟩ := blocks_seek_some _ ts1 ts' (h.trans hs)
+    have := blocks_afterLine_length t r
+    rw [← e] at this
+    simp only
+    rw [blocks_meta_fuel ts1.length ts2.length .newline (afterLine ts') (by omega) (by omega)]
+
+theorem blocks_MB_skip_line (t0 : Tok) (tl : List Tok) (h : t0.kind ≠ .metaStart) :
+    metaBlocksOf (t0 :: tl) = metaBlocksOf (afterLine (t0 :: tl)) := by
+  apply blocks_MB_of_seek_eq
+  exact blocks_seek_line .newline (t0 :: tl) (Or.inr (by intro t ht; simp at ht; rw [← ht]; exact h))
+
+theorem blocks_MB_meta_line (t0 : Tok) (tl : List Tok) (h : t0.kind = .metaStart) :
+    metaBlocksOf (t0 :: tl) = lineBody (t0 :: tl) :: metaBlocksOf (afterLine (t0 :: tl)) := by
+  unfold metaBlocksOf
+  rw [blocks_meta_succ, blocks_seek_meta_head t0 tl h]
+  have := blocks_afterLine_length t0 tl
+  simp only
+  rw [blocks_meta_fuel (t0 :: tl).length ((afterLine (t0 :: tl)).length + 1) .newline _ (by omega) (by omega)]
+
+theorem blocks_MB_blank (ts : List Tok) (h : AllBlank ts) : metaBlocksOf ts = [] := by
+  unfold metaBlocksOf
+  rw [blocks_meta_succ, blocks_seek_blank _ _ h]
+
+/-- trimming a list without newline tokens does nothing -/
+theorem blocks_trim_id (l : List Tok) (h : ∀ t ∈ l, t.kind ≠ .newline) : trimTrailingNewlines l = l := by
+  unfold trimTrailingNewlines
+  cases hr : l.reverse with
+  | nil =>
+    have : l = [] := by simpa using hr
+    simp [this]
+  | cons a r =>
+    have ha : a ∈ l := by
+      rw [← List.mem_reverse, hr]; exact List.mem_cons_self ..
+    have : (a.kind == TK.newline) = false := by simpa using h a ha
+    rw [List.dropWhile_cons, this]
+    simp only [Bool.false_eq_true, if_false]
+    rw [← hr, List.reverse_reverse]
+
+theorem blocks_trim_append_newlines (l nls : List Tok) (h : ∀ t ∈ nls, t.kind = .newline) :
+    trimTrailingNewlines (l ++ nls) = trimTrailingNewlines l := by
+  unfold trimTrailingNewlines
+  rw [List.reverse_append, List.dropWhile_append_of_pos]
+  intro a ha
+  simpa using h a (List.mem_reverse.1 ha)
+
+theorem blocks_lineBody_no_newline (ts : List Tok) : ∀ t ∈ lineBody ts, t.kind ≠ .newline := by
+  intro t ht
+  have := blocks_mem_takeWhile _ _ _ ht
+  simpa using this
+
+theorem blocks_lineOf_eq (ts : List Tok) :
+    ∃ nls, lineOf ts = lineBody ts ++ nls ∧ ∀ t ∈ nls, t.kind = .newline := by
+  refine ⟨(ts.dropWhile (fun t => t.kind != .newline)).take 1, rfl, ?_⟩
+  intro t ht
+  cases hd : ts.dropWhile (fun t => t.kind != .newline) with
+  | nil => rw [hd] at ht; simp at ht
+  | cons a r =>
+    rw [hd] at ht
+    simp only [List.take_succ_cons, List.take_zero, List.mem_singleton] at ht
+    subst ht
+    have := List.head?_dropWhile_not (fun t : Tok => t.kind != .newline) ts
+    rw [hd] at this
+    simpa using this
+
+/-- the trimmed single line is the line without its newline token -/
+theorem blocks_trim_lineOf (ts : List Tok) : trimTrailingNewlines (lineOf ts) = lineBody ts := by
+  obtain ⟨nls, e, h⟩ := blocks_lineOf_eq ts
+  rw [e, blocks_trim_append_newlines _ _ h, blocks_trim_id _ (blocks_lineBody_no_newline ts)]
+
+/-- trimming keeps the first token when it is not a newline -/
+theorem blocks_trim_head (t0 : Tok) (l : List Tok) (h : t0.kind ≠ .newline) :
+    (trimTrailingNewlines (t0 :: l)).head? = some t0 := by
+  obtain ⟨nls, e, _⟩ := blocks_trim_spec (t0 :: l)
+  have hm := blocks_trim_keeps (t0 :: l) t0 (List.mem_cons_self ..) h
+  cases hb : trimTrailingNewlines (t0 :: l) with
+  | nil => rw [hb] at hm; cases hm
+  | cons a r =>
+    rw [hb] at e
+    simp only [List.cons_append, List.cons.injEq] at e
+    simp [e.1]
+
+theorem blocks_nonblank_line_head (t0 : Tok) (tl : List Tok)
+    (h : (lineOf (t0 :: tl)).all (fun t => isEmptyTok t.kind) = false) : t0.kind ≠ .newline := by
+  intro hk
+  have : lineOf (t0 :: tl) = [t0] := by simp [lineOf, hk]
+  rw [this] at h
+  simp [isEmptyTok, hk] at h
+
+/-- Step A: skipping empty lines does not change what the metadata-only scanner finds -/
+theorem blocks_skip_MB : ∀ (fuel : Nat) (ts : List Tok) (li : LineInfo) (rest : List Tok),
+    skipEmptyLines fuel ts = some (li, rest) → metaBlocksOf ts = metaBlocksOf (li.toks ++ rest) := by
+  intro fuel
+  induction fuel with
+  | zero => intro ts li rest h; simp [skipEmptyLines] at h
+  | succ n ih =>
+    intro ts li rest h
+    cases ts with
+    | nil => simp [skipEmptyLines, pullLine] at h
+    | cons t0 tl =>
+      simp only [skipEmptyLines, blocks_pullLine_cons] at h
+      split at h
+      · rename_i he
+        have hb : isEmptyTok t0.kind = true := by
+          have hh := blocks_lineOf_head t0 tl
+          rw [List.all_eq_true] at he
+          cases hl : lineOf (t0 :: tl) with
+          | nil => rw [hl] at hh; cases hh
+          | cons a r =>
+            rw [hl] at hh; simp only [List.head?_cons, Option.some.injEq] at hh
+            subst hh
+            exact he a (by rw [hl]; exact List.mem_cons_self ..)
+        have hk : t0.kind ≠ .metaStart := by
+          intro hk; rw [hk] at hb; simp [isEmptyTok] at hb
+        rw [blocks_MB_skip_line t0 tl hk]
+        exact ih _ _ _ h
+      · simp only [Option.some.injEq, Prod.mk.injEq] at h
+        obtain ⟨h1, h2⟩ := h
+        subst h1 h2
+        simp only
+        rw [blocks_lineOf_afterLine]
+
+/-- Step C: the continuation lines of a multi-line block contain no `>>` line -/
+theorem blocks_more_MB : ∀ (fuel : Nat) (ts : List Tok),
+    metaBlocksOf ts = metaBlocksOf (moreLines fuel ts).2 := by
+  intro fuel
+  induction fuel with
+  | zero => intro ts; rfl
+  | succ n ih =>
+    intro ts
+    cases ts with
+    | nil => simp [moreLines, pullLine, isSingleLineMarker]
+    | cons t0 tl =>
+      by_cases hm : isSingleLineMarker (some t0) = true
+      · simp [moreLines, hm]
+      · have hk : t0.kind ≠ .metaStart := by
+          intro hk; simp [isSingleLineMarker, hk] at hm
+        simp only [moreLines, List.head?_cons, hm, Bool.false_eq_true, if_false, blocks_pullLine_cons]
+        rw [blocks_MB_skip_line t0 tl hk]
+        split
+        · rfl
+        · exact ih _
+
+/-- one step of the full splitter, seen by the metadata-only scanner -/
+theorem blocks_next_MB (ts b rest : List Tok) (h : nextBlock ts = some (b, rest)) :
+    metaBlocksOf ts = (if isMetaBlock b then [b] else []) ++ metaBlocksOf rest := by
+  rw [blocks_next_eq] at h
+  cases hs : skipEmptyLines (ts.length + 1) ts with
+  | none => rw [hs] at h; simp at h
+  | some p =>
+    obtain ⟨li, r⟩ := p
+    rw [hs] at h
+    simp only [Option.some.injEq, Prod.mk.injEq] at h
+    obtain ⟨hb, hr⟩ := h
+    obtain ⟨pre, e1, hpre, hne, hpl⟩ := blocks_skip_some _ _ _ _ hs
+    rw [blocks_skip_MB _ _ _ _ hs]
+    obtain ⟨f1, f2, f3, f4, f5⟩ := blocks_pullLine_some _ _ _ hpl
+    cases hts : li.toks ++ r with
+    | nil => exact absurd hts f5
+    | cons t0 tl =>
+      rw [hts] at f1 f2 f3 f4
+      have hall : (lineOf (t0 :: tl)).all (fun t => isEmptyTok t.kind) = false := by rw [← f3]; exact hne
+      have hnl := blocks_nonblank_line_head t0 tl hall
+      have hhead : b.head? = some t0 := by
+        rw [← hb]
+        have hh := blocks_lineOf_head t0 tl
+        rw [← f1] at hh
+        cases hl : li.toks with
+        | nil => rw [hl] at hh; cases hh
+        | cons a l' =>
+          rw [hl] at hh; simp only [List.head?_cons, Option.some.injEq] at hh
+          subst hh
+          exact blocks_trim_head a _ hnl
+      simp only [List.head?_cons] at f4
+      by_cases hk : t0.kind = .metaStart
+      · -- a `>>` line: single-line block
+        have hsl : li.isSingleLine = true := by rw [f4]; simp [isSingleLineMarker, hk]
+        have hbm : blockMore li r = ([], r) := by simp [blockMore, hsl]
+        rw [hbm] at hb hr
+        simp only [List.append_nil] at hb
+        rw [f1, blocks_trim_lineOf] at hb
+        rw [blocks_MB_meta_line t0 tl hk, ← f2, hb, ← hr]
+        simp [isMetaBlock, hhead, hk]
+      · have hnm : isMetaBlock b = false := by simp [isMetaBlock, hhead, hk]
+        rw [hnm, blocks_MB_skip_line t0 tl hk, ← f2]
+        simp only [Bool.false_eq_true, if_false, List.nil_append]
+        rw [← hr]
+        unfold blockMore
+        split
+        · rfl
+        · exact blocks_more_MB _ _
+
+/-- C14: the metadata-only scanner finds exactly the `>>` blocks of the full splitter -/
+theorem blocks_meta_eq : ∀ (n : Nat) (ts : List Tok), ts.length ≤ n →
+    metaBlocksOf ts = (allBlocks (ts.length + 1) ts).filter isMetaBlock := by
+  intro n
+  induction n with
+  | zero =>
+    intro ts h
+    have : ts = [] := List.eq_nil_of_length_eq_zero (by omega)
+    subst this
+    rw [blocks_all_nil]; rfl
+  | succ n ih =>
+    intro ts h
+    rw [blocks_all_unfold]
+    cases hn : nextBlock ts with
+    | none =>
+      simp only [List.filter_nil]
+      exact blocks_MB_blank ts ((blocks_next_none ts).1 hn)
+    | some p =>
+      obtain ⟨b, rest⟩ := p
+      obtain ⟨_, _, _, _, _, _, hl⟩ := blocks_next_some ts b rest hn
+      simp only
+      rw [blocks_next_MB ts b rest hn, ih rest (by omega), List.filter_cons]
+      cases isMetaBlock b <;> simp
+
 end Cook
